@@ -60,6 +60,7 @@ extern void (*vf_alloc_hook)(int is_free);  /* called before every request (sche
 
 /* leak probe: returns 1 if LeakSanitizer (when linked) finds new leaks */
 int vf_lsan_check(void);
+long vf_heap_live(void);   /* live blocks of the whole process heap (sanitizer builds), else -1 */
 
 /* small helpers */
 char *vf_readfile(const char *path, size_t *len);
